@@ -1265,25 +1265,33 @@ func zlibNewReader(r io.Reader) (io.ReadCloser, error) {
 		if err := zr.Reset(r, nil); err != nil {
 			return nil, err
 		}
-		return pooledZlibReader{obj.(io.ReadCloser)}, nil
+		return &pooledZlibReader{ReadCloser: obj.(io.ReadCloser)}, nil
 	}
 
 	zr, err := zlib.NewReader(r)
 	if err != nil {
 		return nil, err
 	}
-	return pooledZlibReader{zr}, nil
+	return &pooledZlibReader{ReadCloser: zr}, nil
 }
 
+// pooledZlibReader returns its zlib reader to zlibReaderPool on Close.
+// Close is idempotent: a second call (a deferred Close next to an explicit
+// one) must not hand the same zlib reader to the pool twice, or two later
+// streams would share one decompressor.
 type pooledZlibReader struct {
 	io.ReadCloser
+	closed bool
 }
 
 // Read delegates to the wrapped zlib reader, but masks a final
 // [zlib.ErrChecksum] as [io.EOF].  PDF readers in the wild routinely ignore
 // the trailing Adler-32 check, and we follow suit here so that a corrupt
 // checksum does not make an otherwise readable stream unusable.
-func (r pooledZlibReader) Read(p []byte) (int, error) {
+func (r *pooledZlibReader) Read(p []byte) (int, error) {
+	if r.closed {
+		return 0, errors.New("read from closed stream")
+	}
 	n, err := r.ReadCloser.Read(p)
 	if err == zlib.ErrChecksum {
 		err = io.EOF
@@ -1291,7 +1299,11 @@ func (r pooledZlibReader) Read(p []byte) (int, error) {
 	return n, err
 }
 
-func (r pooledZlibReader) Close() error {
+func (r *pooledZlibReader) Close() error {
+	if r.closed {
+		return nil
+	}
+	r.closed = true
 	err := r.ReadCloser.Close()
 	if err == zlib.ErrChecksum {
 		err = nil
